@@ -114,5 +114,10 @@ class Existing_Potential_Form(object):
 
   def __call__(self, *args):
     self._check_call(*args)
-    f = self._potential_form(*args)
+    try:
+      f = self._potential_form(*args)
+    except ValueError as e:
+      # The form rejects the parameter values it was given (e.g. the knots of as.buck4 in the wrong order)
+      raise Potential_Form_Exception("Potential form '{}' used with parameters{}: {}".format(
+        self.signature.label, self._check_call.how_used(*args), e))
     return f
